@@ -129,4 +129,9 @@ theorem C12_record_file (sha1 : Bytes → Bytes) (vendor cls : Bytes) (address s
   rw [IHex.read_writeText address _ hb, himg]
   simp
 
+/-- **file level, merged area**: the text of the file for any canonical image (the merged area with its digest is one block; inputs with gaps are
+several) reads back as exactly that image -/
+theorem C12_area_file (c : Image) (hsep : IHex.Separated c) (hb : ∀ s ∈ c, s.1 + s.2.length ≤ 2 ^ 32) :
+    IHex.read (IHex.writeImageText c) = some c := IHex.read_writeImageText c hsep hb
+
 end SuitVerif.Props.C12
